@@ -322,8 +322,9 @@ def body(chk):
                     continue
                 chk.violation(f"index:fault:{ld['outcome']}", f"selection {ld['sel']} with a transient fault on read #{res['case']['flaky_load']['nth']}: {ld['outcome']}: {ld['msg']}",
                               {"case": res["case"], "sel": ld["sel"]})
-    from harness import sessioncheck
+    from harness import ctxindex, sessioncheck
 
+    ctxindex.run(chk)
     sessioncheck.standard(chk)
     from harness import tlaps
 
